@@ -65,10 +65,15 @@ def config_strategy(draw, force_sorted_omp=False, reorder=None,
 def case_strategy(draw, problem, nfree, exclude=()):
     reorder = draw(st.sampled_from([0, 1, 3]))
     cfgs = [draw(config_strategy(True, reorder, exclude)) for _ in range(2)]
+    # the tree algorithms build and prune with per-node data in parallel:
+    # one of the sorted+OpenMP configurations always is a tree with >= 2
+    # threads
+    cfgs[0]['nnps'] = draw(st.sampled_from(['tree', 'comp_tree']))
+    cfgs[0]['threads'] = draw(st.sampled_from([2, 3, 4, 8, 16]))
     cfgs += [draw(config_strategy(exclude=exclude)) for _ in range(nfree)]
     return dict(problem=problem,
-                phys=dict(n=draw(st.sampled_from([10, 12, 14, 24])),
-                          varh=draw(st.booleans()),
+                phys=dict(n=draw(st.sampled_from([10, 14, 24, 32])),
+                          varh=draw(st.sampled_from([True, True, False])),
                           dt=draw(st.sampled_from([1e-4, 2e-4])),
                           nsteps=draw(st.sampled_from([8, 12, 20])),
                           vals=[draw(st.integers(-8, 8)) / 16.0
